@@ -15,9 +15,9 @@ RULE = ('a real TCPPacketGenerator (Reno from random initial cwnd/ssthresh, CUBI
 REAL = ['onl.packet.tcp_generator.TCPPacketGenerator / TCPReno / TCPCubic', 'onl.utils.timer.Timer', 'onl.sim kernel']
 STUBS = ['the ACK-feeding peer (records segments, builds ACK packets)', 'the textbook Reno / Jacobson-Karels reference machine']
 ASSUMPTIONS = ['ssthresh after a retransmission timeout is not specified by the statement: the reference adopts the observed '
-               'value there', 'CUBIC congestion avoidance: only the consequences are checked (per new ACK cwnd grows by 0 or '
-               '1 MSS, never shrinks)', 'scripted new ACKs never acknowledge unsent data; duplicates repeat the current mark']
-PROBES = ['ack_in_expiry_instant', 'buffered_not_multiple_of_mss', 'paced_flow', 'one_or_two_dups_then_new', 'ge4_dups', 'ack_advancing_several', 'timeout_during_fast_recovery', 'timeout',
+               'value there', 'CUBIC congestion avoidance is compared with the window-growth function of the CUBIC paper '
+               '(C = 0.4, beta = 0.2, TCP-friendly region on) in the sender\'s units', 'scripted new ACKs never acknowledge unsent data; duplicates repeat the current mark']
+PROBES = ['cubic_avoidance', 'ack_in_expiry_instant', 'buffered_not_multiple_of_mss', 'paced_flow', 'one_or_two_dups_then_new', 'ge4_dups', 'ack_advancing_several', 'timeout_during_fast_recovery', 'timeout',
           'fast_retransmit', 'congestion_avoidance', 'slow_start', 'cc_cubic', 'dups_with_nothing_outstanding']
 
 
@@ -127,8 +127,9 @@ def execute(case, at):
                     continue
                 w.rec('PRE', 'new', ackno, e[2])
                 acked[0] = ackno
-                sender.put(mkack(ackno, env.now - e[2]))
-                snap('new', ackno, e[2], (ackno - sender.last_ack))
+                ap = mkack(ackno, env.now - e[2])
+                sender.put(ap)
+                snap('new', ackno, e[2], (ackno - sender.last_ack), env.now - ap.time)
             elif e[0] == 'dup':
                 for _ in range(e[1]):
                     w.rec('PRE', 'dup', acked[0], None)
@@ -143,8 +144,9 @@ def execute(case, at):
             return
         w.rec('PRE', 'new', ackno, 0.25)
         acked[0] = ackno
-        sender.put(mkack(ackno, env.now - 0.25))
-        snap('new', ackno, 0.25, (ackno - sender.last_ack))
+        ap = mkack(ackno, env.now - 0.25)
+        sender.put(ap)
+        snap('new', ackno, 0.25, (ackno - sender.last_ack), env.now - ap.time)
     hold['fire'] = fire
     env.process(script())
     w.run(max_steps=120000, until=1e9)
@@ -155,9 +157,53 @@ def close(a, b):
     return abs(a - b) <= 1e-9 * max(1.0, abs(a), abs(b))
 
 
+class RefCubic:
+    """The window-growth function of CUBIC (Ha, Rhee, Xu 2008, Fig. 'Linux CUBIC algorithm', with TCP friendliness) in
+    the sender's units (bytes, seconds), C = 0.4, beta = 0.2; no loss epoch is ever recorded (W_last_max stays 0)
+    because the sender handles duplicate ACKs by the Reno rules of the statement."""
+
+    C, BETA = 0.4, 0.2
+
+    def __init__(self):
+        self.reset()
+        self.cnt = 0
+        self.cwnd_cnt = 0
+
+    def reset(self):
+        self.w_last_max = self.epoch_start = self.origin = self.d_min = self.w_tcp = self.k = self.ack_cnt = 0
+
+    def sample(self, rtt):
+        self.d_min = min(self.d_min, rtt) if self.d_min > 0 else rtt
+
+    def avoid(self, cwnd, now, mss):
+        self.ack_cnt += 1
+        if self.epoch_start <= 0:
+            self.epoch_start = now
+            if cwnd < self.w_last_max:
+                self.k = ((self.w_last_max - cwnd) / self.C) ** (1.0 / 3)
+            else:
+                self.k = 0
+                self.origin = cwnd
+            self.ack_cnt = 1
+            self.w_tcp = cwnd
+        t = now + self.d_min - self.epoch_start
+        target = self.origin + self.C * (t - self.k) ** 3
+        self.cnt = cwnd / (target - cwnd) if target > cwnd else 100 * cwnd
+        self.w_tcp += 3 * self.BETA / (2 - self.BETA) * (self.ack_cnt / cwnd)
+        self.ack_cnt = 0
+        if self.w_tcp > cwnd:
+            self.cnt = min(self.cnt, cwnd / (self.w_tcp - cwnd))
+        if self.cwnd_cnt > self.cnt:
+            self.cwnd_cnt = 0
+            return cwnd + mss
+        self.cwnd_cnt += 1
+        return cwnd
+
+
 def check(w, case):
     viol, stats = [], {}
     cubic = case.get('cc') == 'cubic'
+    rc = RefCubic()
     if case.get('pace'):
         stats['paced_flow'] = 1
     if case.get('tail') or (case.get('pace') and case.get('msg', MSS) % MSS):
@@ -217,6 +263,7 @@ def check(w, case):
             if dups >= 3:
                 stats['timeout_during_fast_recovery'] = 1
             cwnd = MSS
+            rc.reset()
             rto = rto * 2
             ssth = ossth                      # unspecified by the statement: adopt
             if not close(ocwnd, cwnd) or not close(orto, rto):
@@ -246,6 +293,8 @@ def check(w, case):
             rto = srtt + 4 * rttvar
             last_ack = ackno
             before = cwnd
+            if cubic:
+                rc.sample(a[3] if len(a) > 3 else sample)
             if cwnd <= ssth:
                 cwnd += MSS
                 stats['slow_start'] = 1
@@ -256,8 +305,14 @@ def check(w, case):
                 grow_ok = close(ocwnd, cwnd)
             else:
                 stats['congestion_avoidance'] = 1
-                grow_ok = close(ocwnd, before) or close(ocwnd, before + MSS)
-                cwnd = ocwnd
+                stats['cubic_avoidance'] = 1
+                try:
+                    cwnd = rc.avoid(cwnd, now, MSS)
+                    grow_ok = close(ocwnd, cwnd)
+                except ZeroDivisionError:
+                    # the growth function itself divides by (target - cwnd) only when target > cwnd
+                    grow_ok = close(ocwnd, before) or close(ocwnd, before + MSS)
+                    cwnd = ocwnd
             if not grow_ok:
                 viol.append(('C17.2', 'new ACK %r at t=%r: cwnd became %r; rule gives %r (ssthresh %r, cwnd before growth %r)' %
                              (ackno, now, ocwnd, cwnd, ssth, before)))
